@@ -13,6 +13,9 @@ type Value interface{}
 // function id, map/chan references.
 type Scalar struct {
 	T Term
+	// Ptr is set on a uintptr obtained from a byte pointer (plus or minus an
+	// integer): the pointer it denotes. See the unsafe.Pointer conversions.
+	Ptr *PtrV
 }
 
 // PtrV is a pointer: a region identifier and an element offset inside it.
